@@ -25,6 +25,9 @@ type c06Case struct {
 	Writes  string `json:"local_writes"`   // none | quarter | burst
 	Inbound bool   `json:"inbound"`
 	Legacy  bool   `json:"legacy_timers"`
+	// Prev, if >= 0, makes the judged session the SECOND one of the same peer: a first session in which
+	// the remote proposed hold time Prev is ended by the remote's Cease, then corebgp reconnects.
+	Prev int `json:"previous_session_remote_hold"`
 }
 
 type c06Obs struct {
@@ -32,6 +35,7 @@ type c06Obs struct {
 	sent       []int64 // virtual times at which the remote sent a KEEPALIVE/UPDATE (after its OPEN)
 	estT       int64   // time the session was established (remote's view: its KEEPALIVE sent)
 	openHold   int
+	t0         int64 // start of the judged connection
 	stopSend   int64
 	endT       int64
 	aliveAtEnd bool
@@ -51,12 +55,21 @@ func c06Run(cs c06Case, ch vrt.Chooser, trace bool) (*world.World, *vrt.Exec, *c
 	if H == 0 {
 		span = 10 * 65535 * time.Second
 	}
+	if cs.Prev >= 0 {
+		span += 10 * time.Second
+	}
 	o := &c06Obs{openHold: -1}
 	var w *world.World
 	e := vrt.Run(vrt.Config{Horizon: int64(span + 100*time.Second), LegacyTimers: cs.Legacy, Trace: trace, Chooser: ch, MaxSteps: 400000}, func() {
 		w = world.New(libIP)
 		w.NewServer(libIP)
 		pl := &world.Plugin{W: w, Peer: "P1", NoYield: ch == nil}
+		pl.Handle = func(p *world.Plugin, s, n int, b []byte) *corebgp.Notification {
+			if string(b) == "SLOW" {
+				vrt.Sleep(500 * time.Millisecond)
+			}
+			return nil
+		}
 		pl.OnEst = func(p *world.Plugin, s int, wr corebgp.UpdateMessageWriter) {
 			if cs.Writes == "none" || H == 0 && cs.Writes != "burst" {
 				return
@@ -79,8 +92,25 @@ func c06Run(cs c06Case, ch vrt.Chooser, trace bool) (*world.World, *vrt.Exec, *c
 				}
 			})
 		}
+		first := cs.Prev >= 0
 		script := func(r *world.Remote) {
+			if first {
+				// the earlier session: negotiate with another hold time, then end it without damping
+				first = false
+				if _, ok := r.Expect(wire.TypeOpen); ok {
+					r.Send(wire.Open(65002, uint16(cs.Prev), 0x0a000002))
+					if _, ok := r.Expect(wire.TypeKeepalive); ok {
+						r.Send(wire.Keepalive())
+						vrt.Sleep(time.Second)
+						r.Send(wire.Notification(6, 4, nil))
+					}
+				}
+				r.Deadline(2 * time.Second)
+				r.Drain()
+				return
+			}
 			o.rem = r
+			o.t0 = vrt.Cur().Now()
 			m, ok := r.Expect(wire.TypeOpen)
 			if !ok {
 				return
@@ -143,6 +173,13 @@ func c06Run(cs c06Case, ch vrt.Chooser, trace bool) (*world.World, *vrt.Exec, *c
 						break
 					}
 				}
+			case "upd-slow-handler":
+				// an UPDATE arrives 0.2 s before expiry and its handler takes 0.5 s: the hold timer fires
+				// while the FSM goroutine is in the handler
+				if H > 0 {
+					vrt.Sleep(H - 200*time.Millisecond)
+					send(wire.Update([]byte("SLOW")))
+				}
 			case "alternate":
 				for i := 0; H > 0 && i < 6; i++ {
 					vrt.Sleep(2 * H / 3)
@@ -164,7 +201,7 @@ func c06Run(cs c06Case, ch vrt.Chooser, trace bool) (*world.World, *vrt.Exec, *c
 			opts = append(opts, corebgp.WithPassive())
 		} else {
 			w.NW.OnDial(remAddr, func(att int, from *net.TCPAddr) vnet.DialOutcome {
-				if att > 0 {
+				if att > 0 && !(att == 1 && cs.Prev >= 0) {
 					return vnet.DialOutcome{Kind: vnet.DialRefuse}
 				}
 				return vnet.DialOutcome{Kind: vnet.DialAccept, Serve: func(c *vnet.Conn) {
@@ -180,13 +217,22 @@ func c06Run(cs c06Case, ch vrt.Chooser, trace bool) (*world.World, *vrt.Exec, *c
 		w.Serve(libAddr)
 		if cs.Inbound {
 			vrt.GoWorld("remote-in", func() {
-				c, err := w.NW.DialIn("10.0.0.2:40001", libAddr)
-				if err != nil {
-					return
+				n := 1
+				if cs.Prev >= 0 {
+					n = 2
 				}
-				r := w.NewRemote(c, "P1")
-				script(r)
-				r.Finish()
+				for i := 0; i < n; i++ {
+					c, err := w.NW.DialIn(fmt.Sprintf("10.0.0.2:%d", 40001+i), libAddr)
+					if err != nil {
+						return
+					}
+					r := w.NewRemote(c, "P1")
+					script(r)
+					r.Finish()
+					if i == 0 && n == 2 {
+						vrt.Sleep(time.Second)
+					}
+				}
 			})
 		}
 		// run for the whole span, or until the connection ended (no point in watching
@@ -261,6 +307,9 @@ func c06Judge(cs c06Case, w *world.World, e *vrt.Exec, o *c06Obs) (string, strin
 	}
 	established := cs.Traffic != "silent-openconfirm"
 	nEst := w.Count("OnEstablished", "enter", "P1")
+	if cs.Prev >= 0 {
+		nEst-- // the earlier session
+	}
 	if established && nEst != 1 {
 		return "not-established", fmt.Sprintf("OnEstablished fired %d times (hold times %d/%d)", nEst, cs.Local, cs.Remote)
 	}
@@ -315,7 +364,11 @@ func c06Judge(cs c06Case, w *world.World, e *vrt.Exec, o *c06Obs) (string, strin
 		if eofT < 0 || eofT < expiry.t {
 			return "no-close-after-expiry", "connection not closed after Hold Timer Expired"
 		}
-		if established && w.Count("OnClose", "exit", "P1") != 1 {
+		wantClose := 1
+		if cs.Prev >= 0 {
+			wantClose = 2
+		}
+		if established && w.Count("OnClose", "exit", "P1") != wantClose {
 			return "onclose-count", "OnClose did not fire exactly once after the expiry"
 		}
 	} else {
@@ -357,7 +410,7 @@ func c06Judge(cs c06Case, w *world.World, e *vrt.Exec, o *c06Obs) (string, strin
 }
 
 var c06Holds = []int{0, 3, 4, 9, 10, 30, 90, 65535}
-var c06Traffic = []string{"silent", "ka-third", "ka-just-before", "ka-at-expiry", "upd-half", "alternate", "silent-openconfirm"}
+var c06Traffic = []string{"silent", "ka-third", "ka-just-before", "ka-at-expiry", "upd-half", "alternate", "silent-openconfirm", "upd-slow-handler"}
 var c06Writes = []string{"none", "quarter", "burst"}
 
 func c06Eval(c *harness.Ctx, cs c06Case) {
@@ -393,12 +446,34 @@ func c06Check(c *harness.Ctx) {
 						if c.Expired() {
 							return
 						}
-						cs := c06Case{Local: l, Remote: r, Traffic: tr, Writes: wr, Inbound: (idx/7)%2 == 0, Legacy: legacy}
+						cs := c06Case{Local: l, Remote: r, Traffic: tr, Writes: wr, Inbound: (idx/7)%2 == 0, Legacy: legacy, Prev: -1}
 						b, _ := json.Marshal(cs)
 						c.Eval(b, true)
 						if idx%397 == 1 {
 							c.Sample(cs)
 						}
+						c06Eval(c, cs)
+					}
+				}
+			}
+		}
+	}
+	// the judged session is the second one of the peer: nothing of the first negotiation may survive
+	for _, l := range []int{0, 9, 90} {
+		for _, r := range []int{0, 3, 9, 90} {
+			for _, prev := range []int{0, 3, 30} {
+				for _, tr := range []string{"silent", "ka-just-before", "upd-half", "silent-openconfirm"} {
+					for _, inbound := range []bool{false, true} {
+						idx++
+						if !c.Mine(idx) {
+							continue
+						}
+						if c.Expired() {
+							return
+						}
+						cs := c06Case{Local: l, Remote: r, Traffic: tr, Writes: "none", Inbound: inbound, Legacy: idx%2 == 0, Prev: prev}
+						b, _ := json.Marshal(cs)
+						c.Eval(b, true)
 						c06Eval(c, cs)
 					}
 				}
@@ -421,7 +496,7 @@ func c06Check(c *harness.Ctx) {
 				if c.Expired() {
 					return
 				}
-				cs := c06Case{Local: pair[0], Remote: pair[1], Traffic: tr, Writes: wr, Inbound: k%2 == 0}
+				cs := c06Case{Local: pair[0], Remote: pair[1], Traffic: tr, Writes: wr, Inbound: k%2 == 0, Prev: -1}
 				if !exploreScn(c, "C06", c06Scn(cs, bound)) {
 					return
 				}
